@@ -19,6 +19,8 @@ not) and any connection state.
 * `unkeyed_session_inert` — any sequence of messages none of whose elements carries the key leaves the
   connection state untouched and is refused element by element.
 * `node_key_nonempty` / `node_gate` — `config.SetApiKey` never leaves the node without a key.
+* `initial_endpoint_gated` — with the repaired constructor ordering the *initial* endpoint is gated by the resolved
+  key too; `initial_endpoint_ungated_as_found` — the witness of finding F34 (ordering before the repair).
 * `gate_before_every_branch` — for every statement list of the `readRequest` loop body that passes
   `gateFirst` (checked at run time on the list regenerated from /repo's source), whatever the guards of the
   other branches are, the statement that decides a key-less request is the gate.
@@ -397,6 +399,39 @@ theorem node_gate (flag : Str) (file : Option Str) (rnd : Str) (hr : rnd ≠ [])
     (serve cfg st (.single e)).1 = st ∧
     ((∃ c, (serve cfg st (.single e)).2 = .msgErr c) ∨ (∃ c, (serve cfg st (.single e)).2 = .one (.err c))) :=
   gate _ st e (node_key_nonempty flag file rnd hr) hu hp
+
+/-- **as found before the repair, falsifying the property for the start-up window** (finding F34, snapshot
+8023026d: `startInitialRPC` at node.go:152 before `SetApiKey` at :170): the initial endpoint was opened with
+the key as configured, not as resolved.  Witness: nothing configured, `api.key` holds `"ab"`; the node's key is
+`"ab"`, yet the initial endpoint had no key and a request without key ran its method.  Observed on the real
+constructor by the harness (`nodekey … initial=ok`); repaired in /repo by 1048d0bd; the check now reports the
+signature `C19:initial-endpoint-before-key-resolution:<entry>` if the ordering ever returns. -/
+theorem initial_endpoint_ungated_as_found :
+    ∃ (flag : Str) (file : Option Str) (rnd : Str) (svc : Service) (e : Elem) (i : Inv),
+      rnd ≠ [] ∧ (setApiKey flag file rnd).1 ≠ [] ∧ effKey e.keys ≠ some (setApiKey flag file rnd).1 ∧
+      (serve { apiKey := initialEndpointKeyAsFound flag file, services := [svc], notifier := false } {} (.single e)).2
+        = .one (.served i true false) :=
+  ⟨[], some [97, 98], [120],
+   { name := [98, 99, 110], callbacks := [([115], { nargs := 0 })], subscriptions := [] },
+   { method := some [98, 99, 110, 95, 115] }, ⟨[98, 99, 110], [115], []⟩,
+   by decide, by decide, by decide, by decide⟩
+
+/-- **initial_endpoint_gated** (repaired ordering): the initial endpoint is created with the resolved key, which
+is never empty, so every request that does not carry exactly the node's key is refused by it as well — for any
+configured value, any `api.key` content, any registry of the initial endpoint. -/
+theorem initial_endpoint_gated (flag : Str) (file : Option Str) (rnd : Str) (hr : rnd ≠ []) (services : List Service)
+    (notifier : Bool) (st : St) (e : Elem) (hp : st.pending = [])
+    (hu : effKey e.keys ≠ some (setApiKey flag file rnd).1) :
+    let cfg : Cfg := { apiKey := initialEndpointKey flag file rnd, services := services, notifier := notifier }
+    (serve cfg st (.single e)).1 = st ∧
+    ((∃ c, (serve cfg st (.single e)).2 = .msgErr c) ∨ (∃ c, (serve cfg st (.single e)).2 = .one (.err c))) :=
+  node_gate flag file rnd hr services notifier st e hp hu
+
+/-- the same witness under the repaired ordering: refused with the invalid-key error -/
+example : (serve { apiKey := initialEndpointKey [] (some [97, 98]) [120],
+                   services := [{ name := [98, 99, 110], callbacks := [([115], { nargs := 0 })], subscriptions := [] }],
+                   notifier := false } {} (.single { method := some [98, 99, 110, 95, 115] })).2
+    = .one (.err codeInvalidKey) := by decide
 
 example : setApiKey [] (some [32, 97, 98, 10]) [120] = ([97, 98], false) := by decide
 example : setApiKey [] (some [32, 10]) [120] = ([120], true) := by decide
